@@ -178,15 +178,31 @@ impl TrainSpec {
 
 fn cells(max: usize) -> BoxedStrategy<Vec<String>> {
     // mostly 1..=max cells, sometimes a wide row (11-22 cells: two-digit column indices exist)
-    (vec(any::<u16>(), 1..=max), prop_oneof![11 => Just(vec![]), 1 => vec(any::<u16>(), 10..=19)])
-        .prop_map(|(v, wide)| v.iter().chain(wide.iter()).map(|&x| CELLS[pick(x, CELLS.len())].to_string()).collect())
+    (
+        vec(any::<u16>(), 1..=max),
+        prop_oneof![11 => Just(vec![]), 1 => vec(any::<u16>(), 10..=19)],
+        // rarely one cell of about 2 KiB whose first comma or quote sits at byte 2040..2054
+        proptest::option::weighted(0.02, (any::<u16>(), 2040usize..=2054, any::<bool>())),
+    )
+        .prop_map(|(v, wide, long)| {
+            let mut cells: Vec<String> = v.iter().chain(wide.iter()).map(|&x| CELLS[pick(x, CELLS.len())].to_string()).collect();
+            if let Some((at, n, quote)) = long {
+                let i = pick(at, cells.len());
+                cells[i] = format!("{}{}t", "q".repeat(n), if quote { "\"" } else { "," });
+            }
+            cells
+        })
         .boxed()
 }
 
 fn surface() -> BoxedStrategy<String> {
-    vec(any::<u16>(), 1..=3)
-        .prop_map(|v| v.iter().map(|&x| TCHARS[pick(x, TCHARS.len())]).collect())
-        .boxed()
+    prop_oneof![
+        60 => vec(any::<u16>(), 1..=3).prop_map(|v| v.iter().map(|&x| TCHARS[pick(x, TCHARS.len())]).collect::<String>()),
+        // a surface of about 2 KiB whose first character that needs CSV quoting (if any) sits at byte 2040..2054
+        // (four-byte characters keep the number of characters, and with it the trie depth, near 540)
+        1 => (20usize..=34, 0u8..3).prop_map(|(a, k)| format!("{}{}{}b", "x".repeat(a), "\u{1F600}".repeat(505), [",", "\"", "z"][usize::from(k)])),
+    ]
+    .boxed()
 }
 
 pub fn unigram_template(j: usize) -> BoxedStrategy<String> {
